@@ -1042,3 +1042,61 @@ func (P *Prog) boolEquiv(a Atom) []Atom {
 	}
 	return out
 }
+
+// GuardsStable: the local guards of in, with success conditions inlined only through helpers introduced by a
+// refactoring (so that extracting a check changes nothing), and without atoms that mention merged or loop-carried
+// values (their spelling depends on the loop form and on SSA numbering). Used by the table-driven monotonicity rules.
+func (P *Prog) GuardsStable(in ssa.Instruction) []string {
+	seen := map[string]bool{}
+	var out []string
+	add := func(a Atom) {
+		k := canonAtom(a.Key())
+		if strings.Contains(k, "phi(") || strings.Contains(k, "loop") || strings.Contains(k, "next(range(") {
+			return
+		}
+		if !seen[k] {
+			seen[k] = true
+			out = append(out, k)
+		}
+	}
+	var expand func(a Atom, depth int)
+	expand = func(a Atom, depth int) {
+		add(a)
+		if depth > 3 {
+			return
+		}
+		if f := P.atomCalleeFn(a); f != nil && P.isNewHelper(enclosingTop(f)) {
+			for _, x := range P.inlineAtom(a, 1) {
+				expand(x, depth+1)
+			}
+		}
+	}
+	for _, a := range P.LocalGuards(in) {
+		expand(a, 0)
+	}
+	// `return f(x)`: implicit success atom (see Guards)
+	if ret, ok := in.(*ssa.Return); ok && ret.Parent() != nil {
+		if idx, _ := errIndex(ret.Parent().Signature); idx >= 0 && idx < len(ret.Results) {
+			if c, t := P.retClass(ret, idx); c == "unknown" && t != nil && (t.Op == "call" || t.Op == "invoke" || t.Op == "extract") {
+				expand(Atom{T: &Term{Op: "call", Name: "isnil", Args: []*Term{t}}, Pos: true}, 0)
+			}
+		}
+	}
+	sort.Strings(out)
+	return out
+}
+
+// atomCalleeFn: the repo function whose result the atom tests (nil when it tests something else).
+func (P *Prog) atomCalleeFn(a Atom) *ssa.Function {
+	t := a.T
+	if t.Op == "call" && t.Name == "isnil" && len(t.Args) == 1 {
+		t = t.Args[0]
+	}
+	if t.Op == "extract" && len(t.Args) == 1 {
+		t = t.Args[0]
+	}
+	if t.Op != "call" {
+		return nil
+	}
+	return P.Fn(t.Name)
+}
